@@ -417,6 +417,40 @@ class Daemon(object):
             shutil.rmtree(self.dir, ignore_errors=True)
 
 
+def wait_quiescent(d, timeout=30.0):
+    """True once the daemon has drained its input pipe and sleeps in epoll_wait (it is single-threaded: whatever it was going to do
+    about the input written so far has then been done); output that arrives meanwhile is collected into d.buf.  False when that
+    state is not reached within the timeout (the caller treats that as inconclusive, never as a verdict)."""
+    import array
+    import fcntl
+    import termios
+    t_end = time.time() + timeout
+    hits = 0
+    while time.time() < t_end:
+        r, _, _ = select.select([d.ofd], [], [], 0.01)
+        if r:
+            c = os.read(d.ofd, 1 << 16)
+            if not c:
+                return False
+            d.buf += c
+            hits = 0
+            continue
+        try:
+            n = array.array("i", [0])
+            fcntl.ioctl(d.p.stdin.fileno(), termios.FIONREAD, n)
+            sc = open("/proc/%d/syscall" % d.p.pid).read().split()
+            st = open("/proc/%d/stat" % d.p.pid).read().rsplit(")", 1)[1].split()[0]
+        except (OSError, IndexError, ValueError):
+            return False
+        if n[0] == 0 and st == "S" and sc and sc[0] in ("232", "281", "441"):
+            hits += 1
+            if hits >= 3:
+                return True
+        else:
+            hits = 0
+    return False
+
+
 def run_batch(build, conf_text, data, leaks=True, env=None, timeout=30.0, hooks=False, args=("-n",), pause_at=None, pause_s=0.0, on_pause=None, ready=None, wrapper=()):
     """Feed raw bytes, close stdin, return (stdout lines, Result).  No sync lines are added.
     pause_at / pause_s: stop writing at that byte offset for that many seconds (stdin stays open) so that real timers can run."""
